@@ -1,7 +1,23 @@
 """C13 - hand-optimised compressed-object decoder agrees with the declarative template"""
 from contracts import c13_native, c13_contracts
 PID = "C13"
-META = {"level": "other", "explanation": "<filled in later by the framework owner>", "trusted_base": []}
+META = {
+    "level": "other",
+    "explanation": (
+        "P (proved on the real body of FastObjectUpdateCompressedDataDeserializer.read, reads recorded in a ghost call log): each "
+        "optional section is read iff the flag the live template puts on it is set; sections using the same kind of read come in the "
+        "template's order; the header is read first and the prim parameters last among fixed reads; the unconditional sub-templates are "
+        "the template's own objects; plus static layout facts computed from the live objects (every struct constant of the fast reader has "
+        "exactly the wire types of the template fields it stands for). Quick tier: one section flag free at a time and each pair of "
+        "adjacent sections, kinds other than avatar/primitive, plus one instance with all kinds; thorough tier: every pair and all 2^11 "
+        "combinations in one instance. B (bounded, NOT proved): equality of decoded field values and byte-exact re-encoding on generated "
+        "payloads (flag combinations x kinds x contents x byte mutations). Empty NameValue section recorded as a known finding."),
+    "trusted_base": [
+        "SimpleStructReader / BufferReader reads are externals (what a read returns is arbitrary); contents equality is bounded tier only",
+        "correspondence template field -> struct constant is written by hand in c13_contracts.sections; flags, order and wire types come from the live template",
+        "quick tier covers flag sets with at most two adjacent free bits; the all-free instance runs in the thorough tier",
+    ],
+}
 
 
 def register(reg):
